@@ -25,7 +25,7 @@ EXHAUSTIVE = {"quick": False, "thorough": False}
 BOUNDS = {"quick": dict(pool="leaves + 1-level wrappings from the generator (sampled 1/4) + 50 curated constructs (transforms, bit streams, lazies, checksums, singletons)",
                         inputs="x, y: 3 symbolic bytes each; build values = parse results of symbolic bytes", offsets="junk prefix 0..2 bytes"),
           "thorough": dict(pool="all generated 1-level + 300 2-level + curated", inputs="5 bytes", offsets="0..2")}
-OUTSIDE = ["thread schedules (the engine is single-threaded; only the consequence of the frame condition is claimed)", "parse_file / build_file (real file I/O)", "memoryview inputs",
+OUTSIDE = ["real files (parse_file / build_file run against an in-memory file model in the symbolic run and against real temporary files in the concrete replay)", "thread schedules (the engine is single-threaded; only the consequence of the frame condition is claimed)", "memoryview inputs with symbolic contents (checked on the concrete witness of every entry-point instance only)",
            "documented per-call state: Rebuffered.stream2, Debugger"]
 ASSUMPTIONS = ["fingerprint() walks __dict__ of reachable objects, class dictionaries of the package's classes and module globals; values that are proxies are compared by identity"]
 
@@ -111,6 +111,7 @@ def instances(tier, seed):
             out.append(dict(name="pair %s | %s" % (x, y), params=dict(kind="pair", a=x, b=y, n=4), expect=["parsed"]))
     for s in CURATED[:25]:
         out.append(dict(name="compile does not mutate %s" % s, params=dict(kind="compile", source=s)))
+    out.append(dict(name="build_file with builders that read back what they wrote", params=dict(kind="filebuild", n=0, source="Pass")))
     return out
 
 
@@ -277,6 +278,20 @@ def harness(ctx, C, p):
             b2 = api.outcome(d.build, r2.value)
             ctx.check("build(v) gives the same bytes after unrelated calls", _same(ctx, b1, b2))
         return "ok"
+    if kind == "filebuild":
+        # builders that read back what they wrote (RawCopy built from a value; Checksum over it) work through build_file as through build
+        d2 = mk(C, "Struct('r'/RawCopy(Struct('a'/Int16ub, 'b'/VarInt)), 'n'/Rebuild(Byte, this.r.length), 'c'/Checksum(Bytes(2), lambda data: data[:2], this.r.data))")
+        a, b = ctx.int("a", 0, 65535), ctx.int("b", 0, 2 ** 14 - 1)
+        v = dict(r=dict(value=dict(a=a, b=b)))
+        b1 = api.outcome(d2.build, v)
+        ctx.check("build succeeds", b1.ok)
+        out = ctx.file_put("rawcopy.bin", b"")
+        b4 = api.outcome(d2.build_file, v, out)
+        ctx.check("build_file succeeds where build does (got %s)" % ("ok" if b4.ok else type(b4.exc).__name__), b4.ok)
+        ctx.check("the file holds exactly the bytes build returns", ctx.eq(ctx.file_get(out), b1.value))
+        r4 = api.outcome(d2.parse_file, out)
+        ctx.check("parse_file of that file returns the value", r4.ok and ctx.fork(ctx.eq(r4.value.r.value.a, a)) and ctx.fork(ctx.eq(r4.value.r.value.b, b)))
+        return "ok"
     if kind == "entry":
         r1 = api.outcome(d.parse, x)
         junk = ctx.bytes("junk", 2)
@@ -301,8 +316,23 @@ def harness(ctx, C, p):
                 ctx.check("build_stream succeeds exactly when build does", b1.ok == b2.ok)
                 if b1.ok:
                     ctx.check("build_stream at a non-zero starting offset emits the bytes build returns", ctx.eq(st2.getvalue(), junk[:s] + b1.value))
+        # files: parse_file reads what parse reads; build_file leaves in the file what build returns (the file is opened for
+        # reading too, so builders that read back -- RawCopy -- work there as well)
+        path = ctx.file_put("in.bin", x)
+        r4 = api.outcome(d.parse_file, path)
+        if "Lazy" not in p["source"]:          # a lazy result needs its stream open; parse_file closes the file (documented)
+            ctx.check("parse_file returns what parse returns", _same(ctx, r1, r4))
+        if r1.ok and not type(r1.value).__name__.startswith("Lazy") and not callable(r1.value) and "Lazy" not in p["source"]:
+            b1 = api.outcome(d.build, r1.value)
+            out = ctx.file_put("out.bin", b"stale contents")
+            b4 = api.outcome(d.build_file, r1.value, out)
+            ctx.check("build_file succeeds exactly when build does", b1.ok == b4.ok)
+            if b1.ok:
+                ctx.check("build_file leaves exactly the bytes build returns in the file", ctx.eq(ctx.file_get(out), b1.value))
         if not ctx.symbolic:
             r3 = api.outcome(d.parse, bytearray(x))
             ctx.check("parse(bytearray) returns what parse(bytes) returns", _same(ctx, r1, r3))
+            r5 = api.outcome(d.parse, memoryview(x))
+            ctx.check("parse(memoryview) returns what parse(bytes) returns", _same(ctx, r1, r5))
         return "ok"
     raise ValueError(kind)
